@@ -1292,6 +1292,9 @@ def _check_optional_tokens(ctx, fi: FuncInfo, res: RuleResult):
                     acc.append(r)      # an attribute recognizer (not a generic token filter)
             except Exception:
                 pass
+        attr_recs = [r for r in recs if not _safe(r.accepts, "C") and not _safe(r.accepts, "0.000000") and any(_safe(r.accepts, t_) for t_ in ("CHG=1", "MASS=1", "RAD=1"))]
+        if not acc and not attr_recs:
+            raise AnalysisError("R-FIELDS: the V3000 atom decoder recognises its optional tokens in a form this analysis does not read (no attribute recognizer found)")
         okread = len(acc) == 1
         ok = okkw and okrange and okread
         res.inst(fi.fq, short(n, 100), "ok" if ok else "fail", detail=f"keyword {kw}, range guard holds on {inside} and fails on {outside}, reader recognizers accepting `{tok}`: {len(acc)}")
@@ -1304,6 +1307,13 @@ def _check_optional_tokens(ctx, fi: FuncInfo, res: RuleResult):
     missing = set(want) - found
     if missing:
         raise AnalysisError(f"R-FIELDS: optional tokens for {sorted(missing)} not found in the atom line writer")
+
+
+def _safe(fn, *a):
+    try:
+        return fn(*a)
+    except Exception:
+        return False
 
 
 def _check_line_sequence(ctx, wh: FuncInfo, res: RuleResult):
